@@ -1,7 +1,8 @@
 """C18 -- re-processing, incremental loading and failed loads do not skew results.
 
   metamorphic (implementation only; this is where regressions are caught)
-      op histories (L<i> = Modules.Parse of text i, P = Modules.Process + full dump, T = a read between the runs:
+      op histories (L<i> = Modules.Parse of text i, P = Modules.Process + full dump, G<name> = Modules.GetModule(name) +
+      full dump (a second kind of run, compared with GetModule on the fresh set), T = a read between the runs:
       ToEntry, Print, Namespace, InstantiatingModule, ReadOnly on every module, C = ClearEntryCache; command c18proc of
       harness/go/c18.go = resolve.go's process command plus the reads) of length <= 10 over pools of good
       texts (random resolver schemas, typedef chains through imports, identities and identityrefs, imports whose target
@@ -795,7 +796,8 @@ def run(res, tier, seed, proof):
         "the file-system fallback of FindModule (Read of name.yang) is not modelled: the harness runs in an empty "
         "directory with an empty search path",
         "a difference between history and batch that disappears when both sides are re-run is attributed to Go map "
-        "iteration order (resolveIdentities still ranges over a map) and counted as map_order_dependent, not reported",
+        "iteration order and counted as map_order_dependent, not reported (none occurs since Process visits the modules in "
+        "key order)",
         "include recursion in the model runs on fuel = number of loaded modules + 1 (exhaustion would be reported as "
         "a failed include; not proved unreachable, never observed)",
     ]
